@@ -36,7 +36,7 @@ def sh(cmd, timeout=None, cwd=None, env=None, capture=True):
     if env:
         e.update(env)
     try:
-        p = subprocess.run(cmd, shell=isinstance(cmd, str), cwd=cwd, env=e, timeout=timeout,
+        p = subprocess.run(cmd, shell=isinstance(cmd, str), cwd=cwd, env=e, timeout=timeout, stdin=subprocess.DEVNULL,
                            stdout=subprocess.PIPE if capture else None,
                            stderr=subprocess.STDOUT if capture else None, text=True, errors="replace")
         return p.returncode, p.stdout or ""
